@@ -9,6 +9,7 @@ import sys
 
 sys.path.insert(0, os.path.dirname(os.path.abspath(__file__)))
 import c2lean
+C = c2lean.cpat
 
 QW = 'include/binlog/detail/QueueWriter.hpp'
 QR = 'include/binlog/detail/QueueReader.hpp'
@@ -70,33 +71,33 @@ SPECS = [
          vars={'clockSync.clockValue': ('clockSync_clockValue', 'u64'), 'clockSync.clockFrequency': ('clockSync_clockFrequency', 'u64'),
                'clockSync.nsSinceEpoch': ('clockSync_nsSinceEpoch', 'u64')},
          consts={'std::nano::den': (1000000000, 'i64')},
-         rewrites=[(r'using nanos = std::chrono::nanoseconds;', ''), (r'nanos\s*\{', 'std::int64_t{')]),
+         rewrites=[(C('using nanos = std::chrono::nanoseconds;'), ''), (r'nanos\s*\{', 'std::int64_t{')]),
     # the chrono part of nsSinceEpochToBrokenDownTimeUTC up to the call of gmtime_r: seconds (floor) and the sub-second remainder
     dict(area='Time', lean_name='nsSinceEpochToSeconds', file=TIME, function='nsSinceEpochToBrokenDownTimeUTC', ret=None,
          inputs={'sinceEpoch': 'i64', 'tm_nsec': 'i32'}, params={'sinceEpoch': ('sinceEpoch', 'i64')},
          vars={'dst.tm_nsec': ('tm_nsec', 'i32')}, outputs=['tm_nsec'],
          calls={'gmtime_r': ('opaque', 'i32', None, ['i64', 'skip'])},
-         rewrites=[(r'using clock = std::chrono::system_clock;', ''),
-                   (r'auto seconds = std::chrono::duration_cast<std::chrono::seconds>\(sinceEpoch\);',
+         rewrites=[(C('using clock = std::chrono::system_clock;'), ''),
+                   (C('auto seconds = std::chrono::duration_cast<std::chrono::seconds>(sinceEpoch);'),
                     'std::int64_t seconds = sinceEpoch / 1000000000L;'),
-                   (r'std::chrono::nanoseconds\{seconds\}', '(seconds * 1000000000L)'),
-                   (r'seconds -= std::chrono::seconds\{1\};', 'seconds -= 1;'),
-                   (r'const clock::time_point tp\{std::chrono::duration_cast<clock::duration>\(seconds\)\};',
+                   (C('std::chrono::nanoseconds{seconds}'), '(seconds * 1000000000L)'),
+                   (C('seconds -= std::chrono::seconds{1};'), 'seconds -= 1;'),
+                   (C('const clock::time_point tp{std::chrono::duration_cast<clock::duration>(seconds)};'),
                     'const std::int64_t tp = seconds * 1000000000L;'),          # clock::duration = nanoseconds (libstdc++)
-                   (r'const std::time_t tt = clock::to_time_t\(tp\);', 'const std::time_t tt = tp / 1000000000L;'),
-                   (r'gmtime_r\(&tt, &dst\);', 'gmtime_r(tt, dst);'),
-                   (r'const std::chrono::nanoseconds remainder\{sinceEpoch - seconds\};',
+                   (C('const std::time_t tt = clock::to_time_t(tp);'), 'const std::time_t tt = tp / 1000000000L;'),
+                   (C('gmtime_r(&tt, &dst);'), 'gmtime_r(tt, dst);'),
+                   (C('const std::chrono::nanoseconds remainder{sinceEpoch - seconds};'),
                     'const std::int64_t remainder = sinceEpoch - seconds * 1000000000L;'),
                    (r'remainder\.count\(\)', 'remainder')]),
     # ---- PrettyPrinter.cpp helpers --------------------------------------------------------------
     dict(area='Time', lean_name='printTwoDigits', file=PP, function='printTwoDigits', ret=None,
          inputs={'i': 'i32'}, params={'i': ('i', 'i32')},
          calls={'out.write': ('opaque', 'i32', None, ['skip', 'i32']), 'digit': ('opaque', 'i32', None, ['i32'])},
-         rewrites=[(r"const char digits\[2\]\{char\('0' \+ a\), char\('0' \+ b\)\};", 'digit(a); digit(b);')]),
+         rewrites=[(C("const char digits[2]{char('0' + a), char('0' + b)};"), 'digit(a); digit(b);')]),
     dict(area='Time', lean_name='printTimeZoneOffset', file=PP, function='printTimeZoneOffset', ret=None,
          inputs={'seconds': 'i32'}, params={'seconds': ('seconds', 'i32')},
          calls={'out.put': ('opaque', 'i32', None, ['i32']), 'printTwoDigits': ('opaque', 'i32', None, ['skip', 'i32'])},
-         rewrites=[(r'const char sign', 'const int sign')]),
+         rewrites=[(C('const char sign'), 'const int sign')]),
     # ---- Range.hpp --------------------------------------------------------------------------------
     dict(area='Reader', lean_name='rangeThrowIfOverflow', file=RANGE, function='throw_if_overflow', ret=None,
          inputs={'s': 'u64', '_begin': 'ptr', '_end': 'ptr'}, params={'s': ('s', 'u64')},
@@ -124,7 +125,7 @@ SPECS = [
          inputs={'c': 'i8', '_p': 'ptr'}, params={'c': ('c', 'i8')},
          vars={'_p': ('_p', 'ptr')}, outputs=['_p'],
          calls={'reserve': ('opaque', 'i32', None, ['u64']), 'store': ('opaque', 'i32', None, ['ptr', 'i8'])},
-         rewrites=[(r'\*_p\+\+ = c;', 'store(_p, c); _p += 1;')]),
+         rewrites=[(C('*_p++ = c;'), 'store(_p, c); _p += 1;')]),
 ]
 
 HEADER = '''/-
